@@ -18,7 +18,7 @@ def tasks(tier):
     ts = [Task('verifHarness_C07_window', [n]) for n in ((0, 1, 3) if tier == 'quick' else (0, 1, 2, 3, 8, 64, 255))]
     ts += [Task('verifHarness_C07_forged', [n]) for n in ((1,) if tier == 'quick' else (0, 1, 3))]
     ts += [Task('verifHarness_C07_history', [k]) for k in ((2,) if tier == 'quick' else (2, 3, 4))]
-    ts.append(Task('verifHarness_C07_T', [], {'x25_uf': True, 'bv_as_int_fallback': True, 'inc_timeout_ms': 300, 'timeout_ms': 5000},
+    ts.append(Task('verifHarness_C07_T', [], {'x25_uf': True, 'bv_as_int_fallback': True, 'inc_timeout_ms': 300, 'timeout_ms': 5000, 'now_stub': True},
                    pkg='pkg/streamwriter'))
     ts.append(Task('verifHarness_C07_reference', [], pkg='pkg/streamwriter'))
     return ts
